@@ -612,13 +612,14 @@ pub fn run_case(case: &Case, std_cfg: bool, trace: bool) -> RunOut {
 
 // ---------------------------------------------------------------- storm mode
 //
-// Truly concurrent wake-ups ("from another thread"). The scripted schedule is
-// replaced by this loop: after every poll the wakers of the most recent poll
-// of all live pending children are handed to two helper threads, which invoke
-// them at a moment the harness does not control, while the task thread is
-// already polling the combinator again (because an earlier wake-up arrived, or
-// spuriously, with a fresh task waker). All bookkeeping stays on the task
-// thread; the helpers only ever touch the `Waker` clones they were given.
+// Truly concurrent wake-ups ("from another thread"). The scripted fires are
+// replaced: after every poll the wakers of the most recent poll of all live
+// pending children are handed to two helper threads, which invoke them at a
+// moment the harness does not control, while the task thread is already
+// polling the combinator again (because an earlier wake-up arrived, or
+// spuriously, with a fresh task waker), or is mutating the group. All
+// bookkeeping stays on the task thread; the helpers only ever touch the
+// `Waker` clones they were given.
 //
 // The verdict does not depend on timing: when every waker that was handed out
 // has been invoked (the helpers are idle), the last poll answered Pending and
@@ -631,8 +632,7 @@ struct StormJob {
     spin: u32,
     /// synchronised start: the helper reports that it holds the job and then
     /// busy-waits for the task thread's go, so that the wake-up and the task
-    /// thread's next poll start from a common moment (a helper that has to be
-    /// woken from a blocking receive would otherwise always be late)
+    /// thread's next step start from a common moment
     gate: Option<Arc<Gate>>,
 }
 
@@ -645,44 +645,67 @@ struct StormPool {
     tx: Vec<std::sync::mpsc::Sender<StormJob>>,
     outstanding: Arc<std::sync::atomic::AtomicUsize>,
     panicked: Arc<AtomicBool>,
+    /// a storm case is running: the helpers busy-poll their queues instead of
+    /// blocking (a blocked helper takes tens of microseconds to come back)
+    hot: Arc<AtomicBool>,
 }
 
 impl StormPool {
     fn new(helpers: usize) -> StormPool {
         let outstanding = Arc::new(std::sync::atomic::AtomicUsize::new(0));
         let panicked = Arc::new(AtomicBool::new(false));
+        let hot = Arc::new(AtomicBool::new(false));
         let mut tx = Vec::new();
         for _ in 0..helpers {
             let (s, r) = std::sync::mpsc::channel::<StormJob>();
             let out = outstanding.clone();
             let pan = panicked.clone();
-            std::thread::spawn(move || {
-                while let Ok(job) = r.recv() {
-                    if let Some(g) = &job.gate {
-                        g.ready.fetch_add(1, Ordering::SeqCst);
-                        let mut n = 0u32;
-                        while !g.go.load(Ordering::SeqCst) && n < 2_000_000 {
-                            std::hint::spin_loop();
-                            n += 1;
-                        }
-                    }
-                    for _ in 0..job.spin {
-                        std::hint::spin_loop();
-                    }
-                    let ok = catch_unwind(AssertUnwindSafe(|| {
-                        job.waker.wake_by_ref();
-                        drop(job.waker);
-                    }))
-                    .is_ok();
-                    if !ok {
-                        pan.store(true, Ordering::SeqCst);
-                    }
-                    out.fetch_sub(1, Ordering::SeqCst);
+            let hot = hot.clone();
+            // a crash inside a helper is attributed to the case of its task thread
+            let wid = crate::crash::worker();
+            std::thread::spawn(move || loop {
+                if crate::crash::worker() != wid {
+                    crate::crash::set_worker(wid);
                 }
+                let job = if hot.load(Ordering::Relaxed) {
+                    match r.try_recv() {
+                        Ok(j) => j,
+                        Err(std::sync::mpsc::TryRecvError::Empty) => {
+                            std::hint::spin_loop();
+                            continue;
+                        }
+                        Err(_) => break,
+                    }
+                } else {
+                    match r.recv() {
+                        Ok(j) => j,
+                        Err(_) => break,
+                    }
+                };
+                if let Some(g) = &job.gate {
+                    g.ready.fetch_add(1, Ordering::SeqCst);
+                    let mut n = 0u32;
+                    while !g.go.load(Ordering::SeqCst) && n < 2_000_000 {
+                        std::hint::spin_loop();
+                        n += 1;
+                    }
+                }
+                for _ in 0..job.spin {
+                    std::hint::spin_loop();
+                }
+                let ok = catch_unwind(AssertUnwindSafe(|| {
+                    job.waker.wake_by_ref();
+                    drop(job.waker);
+                }))
+                .is_ok();
+                if !ok {
+                    pan.store(true, Ordering::SeqCst);
+                }
+                out.fetch_sub(1, Ordering::SeqCst);
             });
             tx.push(s);
         }
-        StormPool { tx, outstanding, panicked }
+        StormPool { tx, outstanding, panicked, hot }
     }
     fn send(&self, k: usize, waker: Waker, spin: u32, gate: Option<Arc<Gate>>) {
         self.outstanding.fetch_add(1, Ordering::SeqCst);
@@ -709,10 +732,50 @@ fn with_pool<R>(f: impl FnOnce(&StormPool) -> R) -> R {
     })
 }
 
+pub fn storm_begin() {
+    with_pool(|p| p.hot.store(true, Ordering::SeqCst));
+}
+
+/// Wait until the helpers have invoked everything they hold; returns whether
+/// one of those invocations panicked.
+pub fn storm_end() -> bool {
+    let mut spins = 0u64;
+    while !with_pool(|p| p.idle()) {
+        spins += 1;
+        if spins % 64 == 0 {
+            std::thread::yield_now();
+        } else {
+            std::hint::spin_loop();
+        }
+    }
+    with_pool(|p| {
+        p.hot.store(false, Ordering::SeqCst);
+        p.panicked.swap(false, Ordering::SeqCst)
+    })
+}
+
+/// A deterministic byte source for storm decisions (spin offsets, extra polls).
+pub struct StormBytes {
+    bytes: Vec<u8>,
+    i: usize,
+}
+impl StormBytes {
+    pub fn new(bytes: Vec<u8>) -> Self {
+        StormBytes { bytes, i: 0 }
+    }
+    pub fn next(&mut self) -> u8 {
+        let b = if self.bytes.is_empty() { 0 } else { self.bytes[self.i % self.bytes.len()] };
+        // vary the stream on every lap
+        let lap = (self.i / self.bytes.len().max(1)) as u8;
+        self.i += 1;
+        b.wrapping_add(lap.wrapping_mul(37))
+    }
+}
+
 impl Exec {
     /// hand the not-yet-sent wakers of the most recent poll of every live
     /// pending child to the helpers; returns how many were sent
-    fn storm_send(&mut self, bytes: &mut dyn FnMut() -> u8) -> usize {
+    pub fn storm_send(&mut self, bytes: &mut StormBytes) -> usize {
         let jobs: Vec<Waker> = world::with(|w| {
             let mut v = Vec::new();
             let leaves = w.leaves.clone();
@@ -749,7 +812,7 @@ impl Exec {
         let mut ngated = 0usize;
         with_pool(|p| {
             for (i, wk) in jobs.into_iter().enumerate() {
-                let b = bytes();
+                let b = bytes.next();
                 let k = (i + (b & 1) as usize) % 2;
                 // the first job of each helper in this batch starts synchronised
                 let g = if !gated[k] {
@@ -759,7 +822,7 @@ impl Exec {
                 } else {
                     None
                 };
-                p.send(k, wk, ((b >> 1) as u32) * 2, g);
+                p.send(k, wk, ((b >> 2) as u32) * 2, g);
             }
         });
         let mut spins = 0u32;
@@ -772,98 +835,97 @@ impl Exec {
         }
         gate.go.store(true, Ordering::SeqCst);
         // the task thread's own offset from the common start
-        for _ in 0..(bytes() as u32) * 2 {
+        for _ in 0..(bytes.next() >> 2) as u32 {
             std::hint::spin_loop();
         }
         n
+    }
+
+    /// The storm counterpart of the fair drain: poll whenever the task was
+    /// woken (now and then also spuriously, with a fresh task waker, while
+    /// wake-ups are in flight), hand out every new waker, stop when the
+    /// combinator is done or when no wake-up is outstanding any more.
+    /// Returns true if it reached quiescence with the combinator unfinished.
+    pub fn storm_drain(&mut self, bytes: &mut StormBytes, bound: usize, drop_after: Option<usize>) -> bool {
+        let mut steps = 0usize;
+        let mut polls = 0usize;
+        loop {
+            if !self.alive() {
+                return false;
+            }
+            steps += 1;
+            if steps > bound {
+                self.inconclusive = Some("step bound hit in storm mode");
+                return false;
+            }
+            if matches!(drop_after, Some(d) if polls > d) {
+                // cancellation while wake-ups are in flight
+                self.drop_top();
+                return false;
+            }
+            if self.runnable() {
+                self.poll(bytes.next() & 3 == 0);
+                polls += 1;
+                self.storm_send(bytes);
+                // now and then poll again at once, spuriously and with a fresh
+                // task waker, while the helpers are still at work
+                let extra = match bytes.next() {
+                    0..=99 => 0,
+                    100..=219 => 1,
+                    _ => 2,
+                };
+                for _ in 0..extra {
+                    let id = self.top_id;
+                    if self.alive() && world::with(|w| matches!(w.nodes[id].last_answer(), Some(a) if a.is_pend())) {
+                        self.poll(false);
+                        polls += 1;
+                        self.storm_send(bytes);
+                    }
+                }
+                continue;
+            }
+            // parked: wait for a wake-up or for the helpers to run dry
+            let mut spins = 0u64;
+            loop {
+                if self.runnable() {
+                    break;
+                }
+                if with_pool(|p| p.idle()) {
+                    if !self.runnable() {
+                        return true;
+                    }
+                    break;
+                }
+                spins += 1;
+                if spins % 256 == 0 {
+                    std::thread::yield_now();
+                } else {
+                    std::hint::spin_loop();
+                }
+            }
+        }
     }
 }
 
 pub fn run_case_storm(case: &Case, std_cfg: bool, trace: bool) -> RunOut {
     world::reset(std_cfg, trace);
+    storm_begin();
     let mut ex = Exec::new(case);
-    let mut bi = 0usize;
-    let drain = case.drain.clone();
-    let sched_bytes: Vec<u8> = case
+    let mut sb: Vec<u8> = case
         .schedule
         .iter()
         .map(|a| match a {
-            Action::Poll { reuse } => *reuse as u8,
+            Action::Poll { reuse } => 0x40 | *reuse as u8,
             Action::Fire { leaf, .. } => *leaf,
             Action::Drop => 0xfd,
             Action::FireAll => 0x7f,
         })
         .collect();
-    let mut next_byte = move || {
-        let b = if bi < sched_bytes.len() { sched_bytes[bi] } else { drain.get((bi - sched_bytes.len()) % drain.len().max(1)).cloned().unwrap_or(0) };
-        bi += 1;
-        b
-    };
-    let wants_drop = case.schedule.iter().any(|a| matches!(a, Action::Drop));
-    let drop_after = case.schedule.iter().position(|a| matches!(a, Action::Drop)).unwrap_or(0);
+    sb.extend_from_slice(&case.drain);
+    let mut bytes = StormBytes::new(sb);
+    let drop_after = case.schedule.iter().position(|a| matches!(a, Action::Drop));
     let bound = case.root.script_steps() * 6 + 64;
-    let mut steps = 0usize;
-    let mut polls = 0usize;
-    let mut quiescent = false;
-    loop {
-        if !ex.alive() {
-            break;
-        }
-        steps += 1;
-        if steps > bound {
-            ex.inconclusive = Some("step bound hit in storm mode");
-            break;
-        }
-        if wants_drop && polls > drop_after {
-            // cancellation while wake-ups are in flight
-            ex.drop_top();
-            break;
-        }
-        if ex.runnable() {
-            ex.poll(next_byte() & 3 == 0);
-            polls += 1;
-            ex.storm_send(&mut next_byte);
-            // now and then poll again at once, spuriously and with a fresh task
-            // waker, while the helpers are still at work
-            let extra = match next_byte() {
-                0..=127 => 0,
-                128..=215 => 1,
-                _ => 2,
-            };
-            for _ in 0..extra {
-                if ex.alive() && world::with(|w| matches!(w.nodes[ex.top_id].last_answer(), Some(a) if a.is_pend())) {
-                    ex.poll(false);
-                    polls += 1;
-                    ex.storm_send(&mut next_byte);
-                }
-            }
-            continue;
-        }
-        // parked: wait for a wake-up or for the helpers to run dry
-        let mut spins = 0u64;
-        loop {
-            if ex.runnable() {
-                break;
-            }
-            if with_pool(|p| p.idle()) {
-                if !ex.runnable() {
-                    quiescent = true;
-                }
-                break;
-            }
-            spins += 1;
-            if spins % 64 == 0 {
-                std::thread::yield_now();
-            } else {
-                std::hint::spin_loop();
-            }
-        }
-        if quiescent {
-            break;
-        }
-    }
-    // let the helpers finish what they hold (wake-ups after completion / after
-    // the drop must be harmless too)
+    let quiescent = ex.storm_drain(&mut bytes, bound, drop_after);
     let dropped_early = ex.dropped;
     let was_alive = ex.alive();
     if quiescent && was_alive {
@@ -875,16 +937,9 @@ pub fn run_case_storm(case: &Case, std_cfg: bool, trace: bool) -> RunOut {
     let spurious_polls = ex.spurious_polls;
     let waker_changes_while_parked = ex.waker_changes_while_parked;
     let (held, held_r) = ex.finish();
-    let mut spins = 0u64;
-    while !with_pool(|p| p.idle()) {
-        spins += 1;
-        if spins % 64 == 0 {
-            std::thread::yield_now();
-        } else {
-            std::hint::spin_loop();
-        }
-    }
-    if with_pool(|p| p.panicked.swap(false, Ordering::SeqCst)) {
+    // the helpers finish what they hold: wake-ups after completion / after the
+    // drop must be harmless too
+    if storm_end() {
         world::with(|w| {
             let f = w.nodes[top].family();
             w.violate_f(world::Oracle::WakerPanic, f, "invoking a waker from a helper thread, concurrently with polls of the combinator, panicked".into());
